@@ -136,8 +136,8 @@ namespace
         std::vector<value> keys;
         auto data = right.data<d_hashmap>();
         for (auto& it : data->map())
-        {
-            keys.push_back(it.first);
+        { // Handed out by value, as they were captured: changing a returned array key must not change the stored one.
+            keys.push_back(capture_key(it.first));
         }
         return std::make_shared<d_array>(keys);
     }
